@@ -70,6 +70,46 @@ def install_shape_rules(ev: Evaluator):
     ev.shape_table["call:linear_fit.perpendicular_distance_points"] = 0
 
 
+BUDGET_NODES: Dict[int, set] = {}       # id(function node) -> ids of the original nodes that spell the budget of a bounded `for`
+
+
+def _budget_for_as_while(fi, loop: ast.For) -> ast.While:
+    """`for _ in range(B): if not S: break; BODY`  is  `while B > 0 and S: BODY; B -= 1`  when the loop variable is
+    not used, B is a parameter that nothing else assigns and the emptiness test is the first statement.  The work-stack
+    rules are stated for the second form; the first is rewritten into it (synthetic nodes, original positions)."""
+    from ..model import keep
+    it = loop.iter
+    ok = (isinstance(loop.target, ast.Name) and isinstance(it, ast.Call) and isinstance(it.func, ast.Name) and it.func.id == "range"
+          and len(it.args) == 1 and not it.keywords and isinstance(it.args[0], ast.Name) and not loop.orelse and loop.body)
+    if ok:
+        B = it.args[0].id
+        params = fi.signature.positional + fi.signature.kwonly
+        uses_var = any(isinstance(n, ast.Name) and n.id == loop.target.id and isinstance(n.ctx, ast.Load) for st in loop.body for n in ast.walk(st))
+        assigned = any(isinstance(n, ast.Name) and n.id == B and isinstance(n.ctx, ast.Store) for n in ast.walk(fi.node))
+        first = loop.body[0]
+        S = None
+        if isinstance(first, ast.If) and not first.orelse and len(first.body) == 1 and isinstance(first.body[0], ast.Break):
+            t_ = first.test
+            if isinstance(t_, ast.UnaryOp) and isinstance(t_.op, ast.Not) and isinstance(t_.operand, ast.Name):
+                S = t_.operand.id
+            elif isinstance(t_, ast.Compare) and len(t_.ops) == 1 and isinstance(t_.ops[0], ast.Eq) and ast.unparse(t_.comparators[0]) == "0" \
+                    and isinstance(t_.left, ast.Call) and ast.unparse(t_.left.func) == "len" and isinstance(t_.left.args[0], ast.Name):
+                S = t_.left.args[0].id
+        ok = B in params and not uses_var and not assigned and S is not None
+    if not ok:
+        raise AnalysisError(f"{fi.qualname}: the work-stack loop is neither `while ... and <stack>` nor `for _ in range(<budget>): if not <stack>: break` - shape not recognised")
+    src = f"while {B} > 0 and {S}:\n    pass\n    {B} -= 1\n"
+    w = ast.parse(src).body[0]
+    w.body = list(loop.body[1:]) + [w.body[1]]
+    for sub in [w, w.test] + list(ast.walk(w.test)) + [w.body[-1]] + list(ast.walk(w.body[-1])):
+        ast.copy_location(sub, loop)
+        fi.module.node_scope[id(sub)] = fi.scope
+    ast.fix_missing_locations(w)
+    keep(w)
+    BUDGET_NODES.setdefault(id(fi.node), set()).update(id(n) for n in ast.walk(it))
+    return w
+
+
 def build(rc: RuleCtx, qual: str, bind: Optional[Dict[str, Any]] = None, allow_break: bool = False) -> LoopModel:
     fi = rc.func(qual)
     ev = rc.new_eval()
@@ -88,7 +128,11 @@ def build(rc: RuleCtx, qual: str, bind: Optional[Dict[str, Any]] = None, allow_b
             env[p] = ev.symbol(p + "@list")
         else:
             env[p] = ev.symbol(p)
-    pre, loop, post, conds = locate_loop(fi, kind=(ast.While,))
+    try:
+        pre, loop, post, conds = locate_loop(fi, kind=(ast.While,))
+    except AnalysisError:
+        pre, loop, post, conds = locate_loop(fi, kind=(ast.For,))
+        loop = _budget_for_as_while(fi, loop)
     fr = Frame(ev, fi, 0)
     try:
         fr.block(pre, env, TRUE)
